@@ -339,7 +339,11 @@ def r6(chk):
             l = loops[0]
             iv = norm(l.target.elts[0])
             so = [(t, v, s) for t, v, s in stores(l) if isinstance(t, ast.Subscript) and norm(t.slice) in ('"selection_order"', "'selection_order'")]
-            ok = len(so) == 1 and norm(so[0][1]) == iv and parent(so[0][2]) is l and norm(so[0][0].value) == "sample_order[card_id]"
+            rets = [r for r in walk_local(fn) if isinstance(r, ast.Return) and isinstance(r.value, ast.Tuple)]
+            returned = {norm(e) for r in rets for e in r.value.elts}
+            base = so[0][0].value if so else None  # <dict>[<card id>]
+            ok = len(so) == 1 and norm(so[0][1]) == iv and parent(so[0][2]) is l and isinstance(base, ast.Subscript) \
+                and norm(base.value) in returned and isinstance(base.slice, ast.Name)
         chk.ob("C07.R6", f"{rel}:{q}", "selection-order-recorded", ok,
                "the position of each card in the drawn sample is recorded as its selection_order", node=fn, strength="N")
     fn = chk.fn(REL, "CVR.prep_comparison_sample")
